@@ -24,7 +24,8 @@ MaxH == IF Thorough THEN 4 ELSE 3
 
 GenSets == { << >>, << V("v1", "k1", 1) >>, << V("v1", "k1", 1), V("v2", "k2", 1) >>, << V("v2", "k2", 0) >>,
              << V("v1", "k1", 1), V("v2", "k2", 0) >>, << V("v1", "k1", 1), V("v2", "k1", 1) >>,
-             << V("v1", "k1", 1), V("v2", "k1", 0) >> }      \* a zero-power entry sharing the key of a live validator
+             << V("v1", "k1", 1), V("v2", "k1", 0) >>,       \* a zero-power entry sharing the key of a live validator
+             << V("v1", "k1", 1), V("v2", "k2", 0 - 1) >> }  \* a negative power (ValidateGenesis does not look at powers): never bonded, dropped like a zero
 Genesis(params) == {[type |-> "InitGenesis", params |-> p, vals |-> g] : p \in params, g \in GenSets}
 
 WouldEmpty(s) ==
